@@ -315,3 +315,21 @@ M("c09-no-flush", "C09", "R09.4", RP, "                self.local_peer.disk_inte
 M("c09-relay-any-valid", "C09", "R09.6", RP, "            if block == coinstate_changed.head() and header.in_response_to == 0:", "            if header.in_response_to == 0:")
 M("c09-rollback-then-no-return", "C09", ["R09.3", "R09.4"], RP, "                    DefaultBlockStore.instance.write_buffer.clear()  # don't save bad blocks\n                    return\n",
   "                    DefaultBlockStore.instance.write_buffer.clear()  # don't save bad blocks\n")
+
+# ----------------------------------------------------------------------------------------------- C13
+M("c13-drop-byitself", "C13", "R13.1", MGR, "                validate_non_coinbase_transaction_by_itself(transaction)\n\n                assert self.coinstate.current_chain_hash\n\n                validate_non_coinbase_transaction_in_coinstate(\n                    transaction, self.coinstate.current_chain_hash, self.coinstate)\n\n                # Horribly",
+  "                assert self.coinstate.current_chain_hash\n\n                validate_non_coinbase_transaction_in_coinstate(\n                    transaction, self.coinstate.current_chain_hash, self.coinstate)\n\n                # Horribly")
+M("c13-drop-dupcheck", "C13", "R13.1", MGR, "                validate_no_duplicate_output_references_in_transactions(self.transaction_pool + [transaction])\n", "                pass\n")
+M("c13-validate-lkv", "C13", "R13.1", MGR,
+  "                validate_non_coinbase_transaction_in_coinstate(\n                    transaction, self.coinstate.current_chain_hash, self.coinstate)\n\n                # Horribly",
+  "                validate_non_coinbase_transaction_in_coinstate(\n                    transaction, self.coinstate.current_chain_hash, self.last_known_valid_coinstate)\n\n                # Horribly")
+M("c13-foreign-writer", "C13", "R13.2", MIN, "        self.network_thread.local_peer.chain_manager.set_coinstate(self.coinstate)\n", "        self.network_thread.local_peer.chain_manager.coinstate = self.coinstate\n")
+M("c13-drop-cleanup", "C13", "R13.3", MGR, "            self._cleanup_transaction_pool_for_coinstate(coinstate)\n", "")
+M("c13-isvalid-true-in-except", "C13", "R13.3", MGR, "            except ValidateTransactionError:\n                return False", "            except ValidateTransactionError:\n                return True")
+M("c13-handler-falls-through", "C13", "R13.1", MGR, "                self.local_peer.disk_interface.save_transaction_for_debugging(transaction)\n\n                return False  # not successful\n", "                self.local_peer.disk_interface.save_transaction_for_debugging(transaction)\n")
+M("c13-dup-only-last", "C13", "R13.1", MGR, "                validate_no_duplicate_output_references_in_transactions(self.transaction_pool + [transaction])\n\n                #  we", "                validate_no_duplicate_output_references_in_transactions(self.transaction_pool[-10:] + [transaction])\n\n                #  we")
+M("c13-pool-mutated-by-miner", "C13", "R13.2", MIN, "        increasing_time = max(int(time()), self.coinstate.head().timestamp + 1)\n", "        increasing_time = max(int(time()), self.coinstate.head().timestamp + 1)\n        transactions.sort(key=lambda t: t.hash())\n")
+M("c13-cleanup-before-store", "C13", "R13.3", MGR, "            self.coinstate = coinstate\n            self._cleanup_transaction_pool_for_coinstate(coinstate)\n", "            self._cleanup_transaction_pool_for_coinstate(coinstate)\n            self.coinstate = coinstate\n")
+M("c13-relay-always", "C13", "R13.4", RP, "        if self.local_peer.chain_manager.add_transaction_to_pool(transaction):\n", "        self.local_peer.chain_manager.add_transaction_to_pool(transaction)\n        if True:\n")
+M("c13-append-outside-lock", "C13", "R13.1", MGR, "            self.transaction_pool.append(transaction)\n\n        return True  # successfully added", "        self.transaction_pool.append(transaction)\n\n        return True  # successfully added")
+M("c13-cleanup-keeps-first", "C13", "R13.3", MGR, "        self.transaction_pool = [t for t in self.transaction_pool if is_valid(t)]", "        self.transaction_pool = self.transaction_pool[:1] + [t for t in self.transaction_pool[1:] if is_valid(t)]")
